@@ -245,10 +245,11 @@ func Chunks[T any, Slice ~[]T](vs Slice, n int) []Slice {
 func Batches[T any, Slice ~[]T](vs Slice, n int) []Slice {
 	if n < 0 {
 		panic("n out of range")
-	} else if n == 0 {
-		return nil
 	} else if n > len(vs) {
 		n = len(vs)
+	}
+	if n == 0 {
+		return nil
 	}
 	out := make([]Slice, 0, n)
 	i, size, rem := 0, len(vs)/n, len(vs)%n
